@@ -18,15 +18,23 @@ func init() {
 	core.Register(&core.Check{ID: "C29", Level: "exploration", Workers: 6, Run: c29Run, Replay: c29Replay})
 }
 
-const c29CoreSize = 400
+const c29CoreSize = 600
 
 func c29Rule(c *core.Ctx) {
-	c.Rule("domain A = every reflect.Type reachable from the import tables (quick: 22 packages, thorough: all) through Types, Binds, element/key/field/parameter/result/method types, plus 60 compiled corner-case types; " +
+	c.Rule("domain A = every reflect.Type reachable from the import tables (quick: 22 packages, thorough: all) through Types, Binds, element/key/field/parameter/result/method types, plus about 185 compiled corner-case types " +
+		"(among them: one struct type reached through several embedded fields at the same and at different depths - diamonds, sibling named types with one underlying struct, through pointers, overrides, self-references - " +
+		"and every pattern of tagged/untagged fields over 3 fields and the gap patterns over 4, with one tag string so that a displaced tag yields another type of the list); " +
 		"each converted twice in a fresh universe (forward order), re-converted after the universe is warm, and converted in a second universe in reverse order: same object every time, " +
-		"and Kind/Size/Align/FieldAlign/String/Name/PkgPath/Comparable/Len/ChanDir/Elem/Key/In/Out/IsVariadic/NumField/Field(i)/FieldByName(every name at every depth)/methods equal reflect's, navigation results canonical; " +
-		"domain B = composites built with ArrayOf/ChanOf/MapOf/PtrTo/SliceOf/FuncOf/StructOf/NamedOf to depth 2 over 8 base types, constructed twice and against FromReflectType in both orders, attributes against reflect's own constructors; " +
-		"predicates AssignableTo/ConvertibleTo/Implements over all ordered pairs of a 400-type core against reflect and (where expressible) standard go/types. " +
-		"non-trivial = distinct non-predeclared domain types (A), distinct constructor terms (cons), field names resolved through embedding or ambiguous (fbn), pairs with a true answer (P) or where reflect and go/types differ (RG)")
+		"and Kind/Size/Align/FieldAlign/String/Name/PkgPath/Comparable/Len/ChanDir/Elem/Key/In/Out/IsVariadic/NumField/Field(i)/FieldByName(every name at every depth)/methods equal reflect's, the go/types half of a struct has reflect's field names, embedding and TAGS position by position, " +
+		"a method offered by an embedded type but absent from reflect's method set of *T (ambiguous) is never found exactly once, navigation results canonical; " +
+		"domain B = composites built with ArrayOf/ChanOf/MapOf/PtrTo/SliceOf/FuncOf/StructOf/NamedOf to depth 2 over 8 base types, plus StructOf with every tag pattern over 3 fields (exported and unexported first field) and the gap patterns over 4, " +
+		"constructed twice and against FromReflectType in both orders, attributes against reflect's own constructors; once all terms exist each is constructed again (same object: nothing was evicted) and " +
+		"ALL ordered pairs of distinct terms are compared: never one object, never IdenticalTo, struct/struct AssignableTo as reflect; " +
+		"domain C = run-time named struct types (NamedOf/StructOf/AddMethod) mirrored with the standard go/types constructors: 5 leaves (two with one underlying type, two self-referencing), 8 middle definitions each declared twice, " +
+		"every struct of 1-2 embedded elements (by value / by pointer, with and without an own field), 3 embedded over 8 types, and 14 named tops embedded alone / in all ordered pairs / next to a leaf (depth 3): " +
+		"FieldByName and MethodByName of every field, type and method name, twice (cache), against go/types.LookupFieldOrMethod (count 0 / 1 / ambiguous and the index path); " +
+		"predicates IdenticalTo/AssignableTo/ConvertibleTo/Implements over all ordered pairs of a core of up to 600 types (every compiled corner-case type plus a per-class quota of the import tables) against reflect and (where expressible) standard go/types. " +
+		"non-trivial = distinct non-predeclared domain types (A), distinct constructor terms (cons), field names resolved through embedding or ambiguous (fbn), ambiguous promoted methods (mbn), selectors of domain C that are ambiguous or resolved through embedding (emb), pairs with a true answer (P) or where reflect and go/types differ (RG)")
 	c.Assume("xreflect answers are compared for types whose reflect.Type is exact (compiled types and composites reflect can build); run-time named types, structs with unexported/embedded fields built at run time and emulated interfaces are checked for canonicity only",
 		"contract methods added to basic/array/chan/map/slice types by the generics emulation (package-less methods) are not part of Go's method sets and are ignored",
 		"promoted fields: Offset is compared only at depth 0 (xreflect documents a cumulative offset)",
@@ -77,6 +85,11 @@ func c29Run(c *core.Ctx) {
 		k.pairPass(-1, -1, "")
 	}
 	phase("pairs")
+	// ---- embedding trees of run-time types against the standard go/types selector lookup: one worker
+	if c.Shard == 3%n {
+		k.embedCheck("")
+	}
+	phase("embed")
 }
 
 // domainPass converts and checks every domain type selected by mine, in the given order, in universe u.
@@ -217,6 +230,8 @@ func c29Replay(c *core.Ctx, raw json.RawMessage) {
 		if c.Violations() == 0 {
 			k.consCheck(ts, cs.Order, "") // order-dependent: run the whole sequence
 		}
+	case "embed":
+		k.embedCheck(cs.Recipe)
 	case "pair":
 		check(cs.Index, cs.Type)
 		check(cs.Index2, cs.Other)
